@@ -241,6 +241,28 @@ def model_execs(kind, limit, seed):
             hdr = {"fam": "iter", "N": 3, "src": "grow", "bs": 10, "place": "lo" if i % 2 else "hi", "member": 0,
                    "tag": "tlc-iter", "expect": ",".join(exp) or "-", "nofence": 1}
             res.append((hdr, _conv_iter(h, 1)))
+    elif kind in ("arena_c", "arena_u"):
+        # memory_arena driven along the behaviours of the Arena design model (one object, refusing source included):
+        # the model predicts which block every allocate_block returns
+        cached = kind == "arena_c"
+        beh, _ = models.behaviours("Arena", "MCArena_gen_cached.cfg" if cached else "MCArena_gen_uncached.cfg", limit, seed)
+        for i, h in enumerate(beh):
+            cmds, exp = [], []
+            for c in h:
+                if c["op"] == "alloc_block":
+                    if c["res"] == 0:
+                        cmds += ["fail 1", "ab", "nofail"]
+                    else:
+                        cmds.append("ab")
+                        exp.append("%d:16" % (c["res"] - 1))
+                elif c["op"] == "dealloc_block":
+                    cmds.append("db")
+                elif c["op"] == "shrink":
+                    cmds.append("sh")
+            hdr = {"fam": "arena", "src": ["grow", "virtual", "static"][i % 3] if not cached or i % 2 else "grow", "cached": 1 if cached else 0,
+                   "place": "lo" if i % 2 else "hi", "tag": "tlc-arena", "expect": ",".join(exp) or "-"}
+            hdr["bs"] = 1024 if hdr["src"] == "static" else 4096 if hdr["src"] == "virtual" else 64
+            res.append((hdr, cmds))
     elif kind == "coll":
         # every sequence the PoolCollection model distinguishes (two buckets, throwing and composable requests,
         # releases by age) on a real two-bucket collection over one fixed block: the reservations, insert_rest
@@ -376,6 +398,8 @@ def jobs_for(prop, tier, seed):
         addm(["rel", "base", "dbg"], ["ordered", "lifo", "small"])
     if prop in ("C01", "C03", "C04"):
         addm(["rel", "base", "dbg"], ["coll"], "tlc-coll")
+    if prop in ("C05", "C03", "C18"):
+        addm(["rel", "base", "dbg"], ["arena_c", "arena_u"], "tlc-arena")
     if prop in ("C01", "C02", "C06"):
         addm(["base", "dbg", "f16"], ["stack"])
     if prop in ("C01", "C07"):
